@@ -61,8 +61,40 @@ class Tok:
         return Tok("attr:" + name, self)
 
 
+def norm(t):
+    """canonical form of a term modulo identities that hold for circuits whatever the callees are (so that harmless rewrites of the glue do not break the obligation):
+    inverse(inverse(x)) = x;  compose is associative (flattened; `front=True` puts the argument first; `inplace=False` is the default);
+    inverse(a ; b ; c) = inverse(c) ; inverse(b) ; inverse(a);  a single keyword argument of a call equals the same positional argument."""
+    if isinstance(t, (list, tuple)):
+        return tuple(norm(x) for x in t)
+    if not isinstance(t, Tok):
+        return ("const", repr(t)) if not isinstance(t, (int, str, bool, type(None))) else t
+    kw = dict(t.kw)
+    if t.head == "compose" and len(t.args) == 2 and set(kw) <= {"front", "inplace"} and kw.get("inplace", False) is False and isinstance(kw.get("front", False), bool):
+        a, b = norm(t.args[0]), norm(t.args[1])
+        if kw.get("front", False):
+            a, b = b, a
+        seq = (list(a[1]) if isinstance(a, tuple) and a and a[0] == "SEQ" else [a]) + (list(b[1]) if isinstance(b, tuple) and b and b[0] == "SEQ" else [b])
+        return ("SEQ", tuple(seq))
+    if t.head == "inverse" and len(t.args) == 1 and not kw:
+        a = norm(t.args[0])
+        if isinstance(a, tuple) and a and a[0] == "inverse":
+            return a[1]
+        if isinstance(a, tuple) and a and a[0] == "SEQ":
+            return ("SEQ", tuple(_inv(x) for x in reversed(a[1])))
+        return ("inverse", a)
+    args = tuple(norm(a) for a in t.args)
+    if t.head == "call" and len(kw) == 1 and len(args) == 1:
+        return ("call", args + (norm(next(iter(kw.values()))),), ())
+    return (t.head, args, tuple((n, norm(v)) for n, v in sorted(kw.items())))
+
+
+def _inv(a):
+    return a[1] if isinstance(a, tuple) and a and a[0] == "inverse" else ("inverse", a)
+
+
 def same(a, b):
-    return isinstance(a, Tok) and isinstance(b, Tok) and a.key() == b.key()
+    return isinstance(a, Tok) and isinstance(b, Tok) and norm(a) == norm(b)
 
 
 def _rec(name, ok, info="", status=None):
@@ -137,7 +169,9 @@ def glue_tasks():
             gates = [i for i, t in enumerate(log) if t.head == "gate"]
             firstlk = next((i for i, t in enumerate(log) if t.head in ("table", "classify", "find_layer")), None)
             ok_gate = bool(gates) and same(log[gates[0]], Tok("gate", nq, conn)) and (firstlk is None or gates[0] < firstlk)
-            recs.append(_rec("glue.modphase.gate_first", ok_gate, f"call log {log[:4]}"))
+            # WHERE the configuration gate sits is a proof device (it dominates every lookup), not part of the property: if it moved, the argument is withdrawn (UNDECIDED)
+            # and the entry-point grid of C08 decides natively whether unsupported configurations are still rejected
+            recs.append(_rec("glue.modphase.gate_first", ok_gate, f"call log {log[:4]}", status=None if ok_gate else "unknown"))
         except (S.Unsupported, NameError, AttributeError, TypeError, ValueError, KeyError, IndexError) as e:
             recs.append(_rec("glue.modphase.result_term", False, f"structure drift: {type(e).__name__}: {e}", status="unknown"))
         # ---- callers of modphase
@@ -157,7 +191,7 @@ def glue_tasks():
                 recs.append(_rec(f"glue.{nm}.result_term", ok, f"got {res}, want {want}"))
                 if needs_gate:
                     okg = bool(log) and log[0].head == "gate" and same(log[0], Tok("gate", Tok("attr:num_qubits", st), conn))
-                    recs.append(_rec(f"glue.{nm}.gate_first", okg, f"call log {log[:3]}"))
+                    recs.append(_rec(f"glue.{nm}.gate_first", okg, f"call log {log[:3]}", status=None if okg else "unknown"))
             except (S.Unsupported, NameError, AttributeError, TypeError, ValueError, KeyError, IndexError) as e:
                 recs.append(_rec(f"glue.{nm}.result_term", False, f"structure drift: {type(e).__name__}: {e}", status="unknown"))
         return recs, {"t": round(time.time() - t0, 3)}
